@@ -11,13 +11,13 @@
 
 using namespace sim;
 
-enum { OP_CS = 0, OP_PEEK, OP_THINK, OP_G, OP_N };
-static const char *op_names[OP_N] = {"cs", "peek", "think", "guard"};
+enum { OP_CS = 0, OP_PEEK, OP_THINK, OP_G, OP_HAMMER, OP_N };
+static const char *op_names[OP_N] = {"cs", "peek", "think", "guard", "hammer"};
 static const char *go_names[] = {"ctor_lock", "ctor_defer", "ctor_adopt", "ctor_default", "lock", "unlock", "move_ctor", "move_assign", "swap", "destroy", "is_locked", "protects", "guard()", "guard(dont_lock)", "copy_ctor(+destroy both)", "copy_assign(+destroy both)", "guard(adopt_lock)", "shared_guard()", "shared_guard(dont_lock)", "shared_guard(adopt_lock)"};
 enum { CFG_TICKET = 0, CFG_SIMPLE, CFG_GUARDS, CFG_QSGUARD, CFG_N };
 static const char *cfg_names[CFG_N] = {"ticket_spinlock", "simple_spinlock", "unique_lock+shared_lock<1-byte proxy of SimMutex>", "qs::lock_guard<1-byte proxy of SimMutex>"};
 
-static int P_is_locked_misreport, P_throwing, P_aged, P_contended, P_cs, P_guard_ops, P_guard_skipped, P_move_onto_owner, P_swap_both, P_handover, P_is_locked_checked, P_blocked_on_guard, P_adopt, P_odd_mutex, P_qs_extra_ops, P_copy_ops;
+static int P_is_locked_misreport, P_throwing, P_aged, P_contended, P_cs, P_guard_ops, P_guard_skipped, P_move_onto_owner, P_swap_both, P_handover, P_is_locked_checked, P_blocked_on_guard, P_adopt, P_odd_mutex, P_qs_extra_ops, P_copy_ops, P_hammer, P_hammer_big, P_hammer_release_inside;
 
 struct Slot { bool exists = false; int mutex = -1; bool owns = false; };
 
@@ -48,6 +48,7 @@ struct LockEngine : Engine {
 		P_swap_both = probe_id("swap_two_owning_guards"); P_handover = probe_id("lock_handover_between_tasks");
 		P_is_locked_checked = probe_id("is_locked_checked_by_holder"); P_blocked_on_guard = probe_id("guard_ctor_contended"); P_adopt = probe_id("adopt_lock");
 		P_odd_mutex = probe_id("guard_runs_with_mutex_at_odd_address"); P_qs_extra_ops = probe_id("qs_lock_guard_offers_move/copy/swap(op_executed)"); P_copy_ops = probe_id("guard_copy_ops_executed(type_is_copyable)");
+		P_hammer = probe_id("long_stall:one_task_off_the_CPU_while_another_does_a_power_of_two_of_acquisitions"); P_hammer_big = probe_id("long_stall:65535..65537_acquisitions"); P_hammer_release_inside = probe_id("long_stall:victim_resumed_while_the_other_task_holds_the_lock");
 		GL = this;
 	}
 	const char *name() override { return "simlock"; }
@@ -83,6 +84,19 @@ struct LockEngine : Engine {
 				}
 			}
 			pick_strategy(rng, p, true);
+			// Long stall ("slow node"): task 1 is taken off the CPU somewhere inside its lock()/unlock() while task 2 acquires the lock
+			// 2^8 or 2^16 (-1, +0, +1) times, and comes back either afterwards or while task 2 holds the lock once more. Counters
+			// narrower than the lock's history wrap RELATIVE to what the stalled task last saw, which ageing the lock cannot produce.
+			{ Rng hr; hr.seed(p.seed ^ 0x48414d4dull);
+			  if (hr.chance(1, tier ? 400 : 1500)) {
+				p.ops.clear(); p.ntasks = 2; p.knobs["nlocks"] = 1;
+				bool big = hr.chance(1, 2);
+				Op a; a.task = 1; a.id = 0; a.kind = OP_CS; a.a[0] = 0; a.a[1] = 1; a.a[2] = hr.chance(1, 4); a.a[3] = 0; p.ops.push_back(a);
+				if (hr.chance(1, 2)) { Op a2 = a; a2.id = 1; p.ops.push_back(a2); }
+				Op h; h.task = 2; h.id = 0; h.kind = OP_HAMMER; h.a[0] = 0; h.a[1] = (big ? 65536 : 256) + (int64_t)hr.below(3) - 1; h.a[2] = hr.chance(1, 2); h.a[3] = 0; p.ops.push_back(h);
+				p.strat = S_STALL; p.strat_arg = 3; p.knobs["stall_hold"] = 1; p.knobs["stall_task"] = 1; p.knobs["stall_from"] = (int64_t)hr.below(30);
+				p.knobs["cap1"] = 8000000;
+			  } }
 		} else {
 			p.ntasks = rng.chance(1, 2) ? 1 : 2 + (int)rng.below(2);
 			int nm = 1 + (int)rng.below(2);
@@ -164,7 +178,7 @@ struct LockEngine : Engine {
 		if (did_rmw[task] && ++loads_since_rmw[task] >= 2 && !queued_at[task]) queued_at[task] = ++evq; // (loads before any RMW of this acquisition are pre-checks, not waiting)
 	}
 
-	struct CsArg { LockEngine *e; int task, lk, n, check; };
+	struct CsArg { LockEngine *e; int task, lk, n, check; bool release_stalled = false; };
 	static void cs_body(void *p) {
 		CsArg *a = (CsArg *)p; LockEngine *e = a->e; int lk = a->lk;
 		if (++e->in_cs[lk] != 1) violation("mutual_exclusion", "task %d entered the critical section of lock %d while task %d is inside", a->task, lk, e->holder[lk]);
@@ -176,6 +190,7 @@ struct LockEngine : Engine {
 		if (e->holder[lk] && e->holder[lk] != a->task) probe(P_handover);
 		e->holder[lk] = a->task;
 		e->cs_entries++; probe(P_cs);
+		if (a->release_stalled) { probe(P_hammer_release_inside); stall_release(); for (int i = 0; i < 60; i++) { user_write(e->priv[a->task], 8); if (e->in_cs[lk] != 1) violation("mutual_exclusion", "a second task entered the critical section of lock %d while task %d holds it (after a long stall of the other task)", lk, a->task); } }
 		logev(0x1001, (uint64_t)a->task, (uint64_t)lk);
 		for (int i = 0; i < a->n; i++) {
 			char *w = e->words[lk] + 8 * (i & 3);
@@ -310,6 +325,19 @@ struct LockEngine : Engine {
 			if (o.a[2]) sut_guarded(ltype, locks[lk], cs_body, &a);
 			else { sut_lock(ltype, locks[lk]); cs_body(&a); sut_unlock(ltype, locks[lk]); }
 			break; }
+		case OP_HAMMER: {
+			if (cfg > CFG_SIMPLE) return;
+			int lk = (int)(o.a[0] % nlocks); int64_t N = o.a[1];
+			probe(P_hammer); if (N > 60000) probe(P_hammer_big);
+			for (int64_t i = 0; i < N; i++) {
+				CsArg a{this, me, lk, 0, 0};
+				a.release_stalled = o.a[2] && i == N - 1;
+				acquiring[me] = lk; invoked_at[me] = ++evq; queued_at[me] = 0; loads_since_rmw[me] = 0; did_rmw[me] = false;
+				sut_lock(ltype, locks[lk]); cs_body(&a); sut_unlock(ltype, locks[lk]);
+				progress();
+			}
+			stall_release();
+			break; }
 		case OP_PEEK:
 			if (cfg > CFG_SIMPLE) return;
 			(void)sut_is_locked(ltype, locks[o.a[0] % nlocks]);
@@ -356,6 +384,7 @@ struct LockEngine : Engine {
 		std::vector<Op> v;
 		if (o.kind == OP_CS) { if (o.a[1] > 1) { Op c = o; c.a[1] = 1; v.push_back(c); } if (o.a[2]) { Op c = o; c.a[2] = 0; v.push_back(c); } if (o.a[3]) { Op c = o; c.a[3] = 0; v.push_back(c); } }
 		if (o.kind == OP_THINK && o.a[0] > 1) { Op c = o; c.a[0] = 1; v.push_back(c); }
+		if (o.kind == OP_HAMMER) { if (o.a[1] > 300) { Op c = o; c.a[1] = 256 + (o.a[1] & 1); v.push_back(c); } if (o.a[2]) { Op c = o; c.a[2] = 0; v.push_back(c); } }
 		return v;
 	}
 };
